@@ -10,9 +10,18 @@ from funsor.terms import Funsor, Number
 from . import compare, fbuild
 
 
-def _build(rec, interp=None, rename_as_str=False, watch=None):
+def _has_getslice(t):
+    if isinstance(t, dict):
+        return (t.get("c") == "Un" and t["op"]["n"] == "getslice") or any(_has_getslice(v) for v in t.values())
+    if isinstance(t, list):
+        return any(_has_getslice(v) for v in t)
+    return False
+
+
+def _build(rec, interp=None, rename_as_str=False, watch=None, index_style="plain"):
     b = fbuild.Builder(watch=watch)
     b.rename_as_str = rename_as_str
+    b.index_style = index_style
     if interp is None:
         return b.build(rec["t"])
     with interp:
@@ -23,6 +32,10 @@ def c01(rec):
     """C01: default (eager) evaluation returns the specified value; may decline,
     except on the ground core fragment where it must complete."""
     exp = rec["exp"]
+    if not in_carrier(rec["t"]):
+        # max/min paired with mul on data that may be negative: outside the carrier on which
+        # funsor declares that semiring (see C02/C08); not judged
+        return [{"prop": "C01", "status": "skipped_out_of_carrier", "clause": None}]
     try:
         r = _build(rec)
     except Exception as e:  # noqa
@@ -30,6 +43,14 @@ def c01(rec):
             return [{"prop": "C01", "status": "mismatch", "clause": "core_incomplete",
                      "detail": "%s: %s" % (type(e).__name__, str(e)[:200])}]
         return [{"prop": "C01", "status": "declined_error", "clause": type(e).__name__}]
+    if _has_getslice(rec["t"]):
+        try:
+            r2 = _build(rec, index_style="ellipsis")
+            st2, cl2, det2 = compare.compare_values(r2, exp)
+            if st2 == "mismatch":
+                return [{"prop": "C01", "status": "mismatch", "clause": "ellipsis_" + str(cl2), "detail": det2}]
+        except Exception:  # noqa
+            pass
     st, cl, det = compare.compare_values(r, exp)
     if st in ("declined_lazy", "declined_error") and exp["core"]:
         return [{"prop": "C01", "status": "mismatch", "clause": "core_incomplete",
@@ -95,6 +116,17 @@ def c06(rec):
     its evaluation has the same output domain, a subset of the inputs, well-formed data."""
     exp = rec["exp"]
     out = []
+    if _has_getslice(rec["t"]):
+        try:
+            r2 = _build(rec, lazy, index_style="ellipsis")
+            bad = _decl_check(r2, exp, "C06", "lazy_ellipsis")
+            if bad:
+                return [bad]
+            e2 = funsor.reinterpret(r2)
+            if isinstance(e2, Funsor) and not compare.output_matches(e2, exp):
+                return [_verdict("C06", "mismatch", "eager_ellipsis_output", {"got": str(e2.output), "want": exp["out"]})]
+        except Exception as e:  # noqa
+            out.append(_verdict("C06", "declined_error", "ellipsis:" + type(e).__name__))
     try:
         r = _build(rec, lazy)
     except Exception as e:  # noqa
@@ -1123,6 +1155,20 @@ def c06ops(rec):
     elif c["kind"] == "getitem":
         doms.append(fbuild.dom_of({"dt": c["sh"][c["op"]["p"][0]], "sh": []}))
         args.append(int(vals.scalar_to_float(rec["b"]["v"][0])))
+    # equivalent spellings of a basic index must be typed and evaluated alike
+    if c["op"]["n"] == "getslice":
+        from funsor import ops as fops
+        idx = fbuild.py_index(c["op"]["p"])
+        alt = fbuild.index_variant(idx, len(c["sh"]), "ellipsis")
+        try:
+            d_alt = fbuild.dom_to_spec(find_domain(fops.GetsliceOp(alt), *doms))
+            if d_alt != rec["dom"]:
+                out.append(_verdict("C06", "mismatch", "find_domain_ellipsis", {"index": repr(alt), "got": d_alt, "want": rec["dom"]}, sig=sig))
+            r_alt = np.asarray(fops.GetsliceOp(alt)(args[0]))
+            if rec["defined"] and list(r_alt.shape) != rec["res"]["sh"]:
+                out.append(_verdict("C06", "mismatch", "array_shape_ellipsis", {"index": repr(alt), "got": list(r_alt.shape)}, sig=sig))
+        except Exception as e:  # noqa
+            out.append(_verdict("C06", "declined_error", "ellipsis:" + type(e).__name__, sig=sig))
     # static rule
     try:
         d = find_domain(op, *doms)
